@@ -3,7 +3,7 @@ import json, os, subprocess
 
 def run(prop, tier, seed, here, repo, env, scratch):
     out = os.path.join(scratch, "asmvc.json")
-    timeout = "60" if tier == "quick" else "300"
+    timeout = "60" if tier == "quick" else "180"
     cmd = ["python3-vt", os.path.join(here, "asmvc", "main.py"), "--repo", repo, "--out", out, "--timeout", timeout, "--prop", prop,
            "--scratch", os.path.join(scratch, "asm")]
     os.makedirs(os.path.join(scratch, "asm"), exist_ok=True)
@@ -13,8 +13,9 @@ def run(prop, tier, seed, here, repo, env, scratch):
     except Exception:
         pass
     allres = sorted({x for k, v in resid.items() if isinstance(v, list) for x in v if x.startswith("asmvc/")})
-    if tier == "quick" and allres:
-        # residual obligations are claimed for no property: do not spend the quick budget on them
+    if allres and not os.environ.get("VERIF_RESIDUALS"):
+        # residual obligations are claimed for no property: they are only attempted when VERIF_RESIDUALS=1 is set
+        # (each needs minutes of solver time and none has been seen to discharge)
         sk = os.path.join(scratch, "asm_skip.json")
         json.dump(allres, open(sk, "w"))
         cmd += ["--skip", sk]
